@@ -9,7 +9,7 @@ from pgverif.gen import values as V
 from pgverif.monitors import refmodel as R
 
 TIERS = {
-    'quick': dict(shards=4, cases=250, steps=40),
+    'quick': dict(shards=8, cases=125, steps=40),
     'thorough': dict(shards=16, cases=3000, steps=60),
 }
 RULE = ('case = one value-spec-less pg.List or pg.Dict (0-6 initial members, str '
@@ -566,14 +566,14 @@ def run_case(ctx, i):
           problem = ('result', f'copy is a {type(res).__name__}')
       elif not R.same(R.to_plain(res), mres):
         problem = ('result', f'model returned {mres!r:.200}, symbolic {R.to_plain(res)!r:.200}')
-    bad = read_checks(ctx, rng, forest[0], model[0])
+    bad = read_checks(ctx, rng, forest[0], model[0], json_paths=rng.random() < 0.5)
     if not bad:
       # The same read paths on a nested container (it is a list/dict too).
       pair = nested_pair(rng, forest[0], model[0])
       if pair is not None:
         c['nested_read_rounds'] += 1
         bad = [(cl, 'nested container: ' + dt) for cl, dt in
-               read_checks(ctx, rng, pair[0], pair[1], json_paths=rng.random() < 0.3)]
+               read_checks(ctx, rng, pair[0], pair[1], json_paths=rng.random() < 0.25)]
     mech = step['op']
     if (problem or any(cl == 'contents' for cl, _ in bad)) and needs_notify_off(step, before):
       mech += '@notify_off'
